@@ -76,7 +76,9 @@ class OpsMixin(object):
     if known:
       alive = [known]
     elif allowed is not None:
-      alive = [a for a in allowed if tags is None or a in tags]    # declared tag set: no solver call needed
+      alive = [a for a in allowed if tags is None or a in tags]
+      if len(alive) > 1 and not self.spec_mode:
+        alive = [a for a in alive if self.feasible(st, vv.recog(a, t))]
     else:
       alive = []
       for tag in list(tags or vv.TAGS):
@@ -386,7 +388,7 @@ class OpsMixin(object):
     if not isinstance(v, VBool):
       self.safety(st, z3.And(i < vv.INT_FLOAT_LIMIT, i > -vv.INT_FLOAT_LIMIT), 'overflow', 'int too large to convert to float')
     for f in vv.int_to_fp_facts(i):
-      st.assume(f)
+      st.axiom(f)
     return vv.int_to_fp(i)
 
   def arith(self, st, op, a, b):
@@ -477,7 +479,9 @@ class OpsMixin(object):
         self.safety(st, ib != 0, 'zerodiv', 'division by zero')
         return self.fl(st, '/', self.to_float(st, a), self.to_float(st, b))
       if op == '**':
-        n = z3.simplify(ib)
+        n, m0 = z3.simplify(ib), z3.simplify(ia)
+        if z3.is_int_value(n) and z3.is_int_value(m0) and 0 <= n.as_long() <= 4096:
+          return VInt(m0.as_long() ** n.as_long())
         if z3.is_int_value(n) and 0 <= n.as_long() <= 8:
           t = z3.IntVal(1)
           for _ in range(n.as_long()):
@@ -498,7 +502,7 @@ class OpsMixin(object):
   def fl(self, st, op, fa, fb):
     r, facts = vv.fl_arith(op, fa, fb)
     for f in facts:
-      st.assume(f)
+      st.axiom(f)
     self.ctx.use_trusted('ieee-facts:fl_' + op)
     return VFloat(r)
 
